@@ -21,11 +21,11 @@ theorem entryGo_no_panic (rec : Obj → List String → G (List (List String))) 
     exact hrec _ _ h
   · simp
 
-theorem entryStep_no_panic (point : String) (last : Bool) (branch : List String)
+theorem entryStep_no_panic (sk : Bool) (point : String) (last : Bool) (branch : List String)
     (rec : Obj → List String → G (List (List String))) (w : String)
     (hrec : ∀ o b, rec o b ≠ .error (.panic w)) (acc : R) (xi : J × Nat)
     (hacc : acc ≠ .error (some (.panic w))) :
-    entryStep point last branch rec acc xi ≠ .error (some (.panic w)) := by
+    entryStep sk point last branch rec acc xi ≠ .error (some (.panic w)) := by
   unfold entryStep
   cases acc with
   | error e => simpa using hacc
@@ -46,24 +46,24 @@ theorem entryStep_no_panic (point : String) (last : Bool) (branch : List String)
           cases oid with
           | none => simp
           | some id => cases id <;> first | (simp; done) | exact entryGo_no_panic rec w hrec pts o _
-    | null => simp [ferr]
+    | null => simp only; split <;> simp [ferr]
     | bool b => simp [ferr]
     | num n => simp [ferr]
     | str s => simp [ferr]
     | arr xs => simp [ferr]
 
-theorem foldl_entryStep_no_panic (point : String) (last : Bool) (branch : List String)
+theorem foldl_entryStep_no_panic (sk : Bool) (point : String) (last : Bool) (branch : List String)
     (rec : Obj → List String → G (List (List String))) (w : String)
     (hrec : ∀ o b, rec o b ≠ .error (.panic w)) :
     ∀ (xs : List (J × Nat)) (acc : R), acc ≠ .error (some (.panic w)) →
-      xs.foldl (entryStep point last branch rec) acc ≠ .error (some (.panic w)) := by
+      xs.foldl (entryStep sk point last branch rec) acc ≠ .error (some (.panic w)) := by
   intro xs
   induction xs with
   | nil => intro acc h; simpa using h
   | cons x xs ih =>
     intro acc h
     simp only [List.foldl_cons]
-    exact ih _ (entryStep_no_panic point last branch rec w hrec acc x h)
+    exact ih _ (entryStep_no_panic sk point last branch rec w hrec acc x h)
 
 theorem finish_no_panic (r : R) (w : String) (h : r ≠ .error (some (.panic w))) : finish r ≠ .error (.panic w) := by
   cases r with
